@@ -211,6 +211,15 @@ def run(ctx: Ctx) -> None:
                   "the index expression of `a[i]` is compiled again for the write-back: with a side-effecting or changing index the element is "
                   "put back into a different slot than it was taken from")
 
+    # ------------------------------------------------------------ R-C07.6 a borrowed parameter cannot be rebound
+    va = idx.method("BBLinearityChecker", "visit_Assign", "guppylang_internals.checker.linearity_checker")
+    loops = [n for n in walk_no_nested(va.node) if isinstance(n, ast.For) and isinstance(n.iter, ast.Call) and call_name(n.iter) == "find_nodes"]
+    ok = bool(loops) and "PlaceNode" in ast.unparse(loops[0].iter.args[0]) and any("BorrowShadowedError" in ast.unparse(s) for s in loops[0].body) \
+        and not any(isinstance(x, (ast.Break, ast.Return)) for s in loops[0].body for x in walk_no_nested(s))
+    ctx.check(ok, "R-C07.6", f"{va.qualname}#borrowed-parameter-cannot-be-rebound", va.where, {"iterates": ast.unparse(loops[0].iter)[:80] if loops else None},
+              "a borrowed parameter can be rebound inside an unpacking assignment target: the callee hands back a fresh value and the caller "
+              "loses its own (with all earlier in-place updates)")
+
     # ------------------------------------------------------------ R-C07.5 tracing write-back
     tc = idx.find_func("trace_call", "guppylang_internals.tracing.function")
     loops = [n for n in walk_no_nested(tc.node) if isinstance(n, ast.For) and "func.ty.inputs" in ast.unparse(n.iter)]
